@@ -167,6 +167,15 @@ pub fn scale_module(rng: &mut Rng, variant: u64) -> (String, Vec<AInst>) {
                     v.push(AInst::named("ExtInst", Some(void), Some(r), ops));
                 }
             }
+            // the same instruction number through every set, back to back (a number means different things in
+            // different sets; the set decides)
+            for _ in 0..rng.below(3) {
+                let num = 1 + rng.below(81) as u32;
+                for (s, _name) in &sets {
+                    let r = fresh();
+                    v.push(AInst::named("ExtInst", Some(void), Some(r), vec![AOp::id(*s), AOp::w(K::LiteralExtInstInteger, num), AOp::id(fresh())]));
+                }
+            }
             close_fn(&mut v);
             (format!("{} ext-inst imports{}", k, if variant == 5 { " (realistic names)" } else { "" }), v)
         }
